@@ -6,7 +6,11 @@ Part A: the fold `sigCanAssign` on two `def`-shaped headers equals a recursive n
 (segment by segment: positional parameters walked jointly, `*args`, keyword-only, `**kwargs`, the
 trailing loop).
 Part B: `cpyBind` restated over the unified positional list.
-Part C: soundness of the normal form under the exception classes.
+Part C: behavioural soundness of the normal form outside the exception classes (`nf_sound`).
+Part D: parameter contravariance (`nf_contra`).
+Part E: the two behavioural classes are exact — a pair in `posKwClash` / `starKwClash` has a
+concrete call the expected header binds and the actual header rejects (`posKwClash_cex`,
+`starKwClash_cex`).
 -/
 namespace Pya.C07
 
@@ -950,7 +954,20 @@ theorem nf_sound (R : TyRel τ) (E A : TDefSig τ) (hA : A.WF) (hnf : nf R E A =
             obtain ⟨a, ha, hak, han⟩ := slotU_drop k A.posL j E.posL.length hsA (by omega)
             simp only [D07_starKwClash, hn, Bool.true_and] at hD2
             have := List.any_eq_false.mp hD2 a ha
-            simp [hak, han, hacc] at this
+            have hnopk : E.pk.any (·.name == k) = false := by
+              rw [List.any_eq_false]
+              intro p hp hpn
+              have hs := slotU_isSome_of_mem k E.posL 0 ⟨TP.toT .posOrKw p, by
+                simp only [TDefSig.posL, List.mem_append, List.mem_map]; exact Or.inr ⟨p, hp, rfl⟩, rfl,
+                by simpa [TP.toT] using hpn⟩
+              rw [hsE] at hs; cases hs
+            have hstar : acceptsKwStar E k = true := by
+              simp only [acceptsKwStar, hnopk, Bool.not_false, Bool.true_and, Bool.or_eq_true]
+              simp only [Bool.or_eq_true] at hEk
+              rcases hEk with h | h
+              · exact Or.inr h
+              · exact Or.inl h
+            simp [hak, han, hstar] at this
       | none =>
         simp only [Bool.or_eq_true] at hEk ⊢
         rcases hEk with h | h
@@ -1211,5 +1228,527 @@ theorem posFinal_crpo_po (acc : String → Bool) (n : String) (hacc : acc n = tr
       · exact Or.inr ⟨a', by simp [ha'], hn, hk⟩
 
 end joint2
+
+theorem vpOk_some (R : TyRel τ) (their : List (TParam τ)) (avp : Option τ) (st : SaSt) (x : String × τ)
+    (h : vpOk R their avp st (some x) = true) :
+    ∃ T, avp = some T ∧ R.vpvp T x.2 = true ∧
+      ∀ p ∈ their, p.name ∉ st.cp → isPositional p.kind = true → R.xvp p.ann x.2 = true := by
+  unfold vpOk at h
+  cases avp with
+  | none => simp at h
+  | some T =>
+    simp only [Bool.and_eq_true, List.all_eq_true, List.mem_filter] at h
+    refine ⟨T, rfl, h.1, fun p hp hn hk => h.2 p ⟨hp, by simp [hn, hk]⟩⟩
+
+theorem vkOk_some (R : TyRel τ) (their : List (TParam τ)) (avk : Option τ) (st : SaSt) (x : String × τ)
+    (h : vkOk R their avk st (some x) = true) :
+    ∃ U, avk = some U ∧ R.vkvk U x.2 = true ∧
+      ∀ p ∈ their, p.name ∉ st.ck → (p.kind = .kwOnly ∨ p.kind = .posOrKw) → p.name ∉ st.crpo →
+        R.xvk p.ann x.2 = true := by
+  unfold vkOk at h
+  cases avk with
+  | none => simp at h
+  | some U =>
+    simp only [Bool.and_eq_true, List.all_eq_true, List.mem_filter] at h
+    refine ⟨U, rfl, h.1, fun p hp hn hk hc => h.2 p ⟨hp, ?_⟩⟩
+    rcases hk with hk | hk <;> simp [hn, hk, hc]
+
+theorem nf_contra (R : TyRel τ) (sup : τ → τ → Prop) (hR : RelSound R sup) (E A : TDefSig τ)
+    (hE : E.WF) (hA : A.WF) (hnf : nf R E A = true)
+    (hD1 : D07_posKwClash E A = false) (hD3 : D07_kwShadow R E A = false) :
+    ArgsContra sup E A := by
+  intro c hc
+  obtain ⟨n, ks⟩ := c
+  rw [cpy_iff] at hc
+  obtain ⟨_, hn, hkw, _, _⟩ := hc
+  unfold nf at hnf
+  simp only [Bool.and_eq_true] at hnf
+  obtain ⟨⟨⟨⟨⟨_, hmp⟩, hvp⟩, hkoOk⟩, hvk⟩, _⟩ := hnf
+  have hposnd := posL_nodup A hA
+  constructor
+  · -- positional arguments
+    intro i hi
+    simp only at hi
+    unfold slotTy
+    cases heI : E.posL[i]? with
+    | some e =>
+      have hst := pos_joint_at R _ _ E.posL A.posL i e hmp heI
+      cases haI : A.posL[i]? with
+      | some a =>
+        rw [haI] at hst
+        simp only [posStepOk, Bool.and_eq_true] at hst
+        exact ⟨e.ann, a.ann, rfl, rfl, hR.asg _ _ hst.2⟩
+      | none =>
+        rw [haI] at hst
+        simp only [posStepOk] at hst
+        cases hv : A.vp with
+        | none => simp [hv] at hst
+        | some y =>
+          refine ⟨e.ann, y.2, rfl, rfl, hR.evp _ _ ?_⟩
+          simp only [hv, Option.map_some] at hst
+          split at hst
+          · cases hk : A.vk <;> simp [hk] at hst
+            exact hst.1
+          · exact hst
+    | none =>
+      have hle : E.posL.length ≤ i := by simpa using heI
+      cases hv : E.vp with
+      | none =>
+        rcases hn with hn | hn
+        · omega
+        · rw [hv] at hn; cases hn
+      | some x =>
+        rw [hv] at hvp
+        obtain ⟨T, hT, hvv, hext⟩ := vpOk_some R _ _ _ x hvp
+        cases haI : A.posL[i]? with
+        | some a =>
+          refine ⟨x.2, a.ann, rfl, rfl, hR.xvp _ _ ?_⟩
+          have hadrop : a ∈ A.posL.drop E.posL.length := by
+            have : (A.posL.drop E.posL.length)[i - E.posL.length]? = some a := by
+              rw [List.getElem?_drop, ← haI]; congr 1; omega
+            exact List.mem_of_getElem? this
+          have hapos : a ∈ A.posL := List.mem_of_mem_drop hadrop
+          apply hext a (mem_posL_tparams A a hapos) ?_ (posL_positional A a hapos)
+          intro hcp
+          simp only [st1] at hcp
+          rcases posFinal_cp_sub a.name E.posL A.posL {} hcp with h | h
+          · simp at h
+          · exact drop_disjoint_take A.posL hposnd E.posL.length a hadrop h
+        | none =>
+          cases hav : A.vp with
+          | none => simp [hav] at hT
+          | some y =>
+            simp only [hav, Option.map_some, Option.some.injEq] at hT
+            exact ⟨x.2, y.2, rfl, rfl, hR.vpvp _ _ (by rw [hT]; exact hvv)⟩
+  · -- keyword arguments
+    intro k hk
+    simp only at hk
+    rw [kwTy_eq E hE, kwTy_eq A hA]
+    cases hEk : kwAt E.tparams k with
+    | some t =>
+      obtain ⟨htm, htn, htk⟩ := kwAt_some E.tparams k t hEk
+      rcases htk with htk | htk
+      · -- lands on an expected positional-or-keyword parameter
+        obtain ⟨i, hsl, hti⟩ := slot_of_kwAt_pk E hE k t hEk htk
+        have hacc := acceptsKw_of_slot E k i hsl
+        have hst := pos_joint_at R _ _ E.posL A.posL i t hmp hti
+        cases haI : A.posL[i]? with
+        | some a =>
+          rw [haI] at hst
+          simp only [posStepOk, htk, beq_self_eq_true, if_true, Bool.and_eq_true, beq_iff_eq] at hst
+          have hapos : a ∈ A.posL := List.mem_of_getElem? haI
+          have := kwAt_of_mem A.tparams hA a (mem_posL_tparams A a hapos) (Or.inl hst.1.1.1)
+          rw [← hst.1.1.2, htn] at this
+          rw [this]
+          exact ⟨t.ann, a.ann, rfl, rfl, hR.asg _ _ hst.2⟩
+        | none =>
+          rw [haI] at hst
+          simp only [posStepOk, htk, beq_self_eq_true, if_true] at hst
+          cases hav : A.vp with
+          | none => simp [hav] at hst
+          | some y =>
+          cases hak : A.vk with
+          | none => simp [hav, hak] at hst
+          | some z =>
+          simp only [hav, hak, Option.map_some, Bool.and_eq_true] at hst
+          cases hAk : kwAt A.tparams k with
+          | some b =>
+            obtain ⟨hbm, hbn, hbk⟩ := kwAt_some A.tparams k b hAk
+            rcases hbk with hbk | hbk
+            · exfalso
+              have hsome := slotU_isSome_of_mem k A.posL 0 ⟨b, mem_tparams_pk A b hbm hbk, hbk, hbn⟩
+              rcases slot_joint_E R _ _ (acceptsKw E) k hacc E.posL A.posL 0 i (posL_positional E) hmp hD1 hsl
+                with h | ⟨h, _⟩
+              · obtain ⟨a, ha, _⟩ := slotU_mem k A.posL 0 i h
+                simp only [Nat.sub_zero] at ha
+                rw [haI] at ha; cases ha
+              · rw [h] at hsome; cases hsome
+            · have hbko := mem_tparams_ko A b hbm hbk
+              simp only [TDefSig.koL, List.mem_map] at hbko
+              obtain ⟨q, hq, rfl⟩ := hbko
+              refine ⟨t.ann, q.ann, rfl, rfl, hR.asg _ _ ?_⟩
+              have hle : A.posL.length ≤ i := by simpa using haI
+              have htdrop : t ∈ E.posL.drop A.posL.length := by
+                have : (E.posL.drop A.posL.length)[i - A.posL.length]? = some t := by
+                  rw [List.getElem?_drop, ← hti]; congr 1; omega
+                exact List.mem_of_getElem? this
+              have h3 := List.any_eq_false.mp hD3 t htdrop
+              simp only [htk, beq_self_eq_true, Bool.true_and, Bool.not_eq_true] at h3
+              have h4 := List.any_eq_false.mp h3 q hq
+              have hqn : q.name = t.name := by rw [htn]; simpa [TP.toT] using hbn
+              simpa [hqn] using h4
+          | none =>
+            exact ⟨t.ann, z.2, rfl, rfl, hR.evk _ _ hst.2⟩
+      · -- lands on an expected keyword-only parameter
+        have hko := mem_tparams_ko E t htm htk
+        have hok := List.all_eq_true.mp hkoOk t hko
+        simp only [koStepOk, htn] at hok
+        cases hAk : kwAt A.tparams k with
+        | some b =>
+          rw [hAk] at hok
+          simp only [Bool.and_eq_true] at hok
+          exact ⟨t.ann, b.ann, rfl, rfl, hR.asg _ _ hok.2⟩
+        | none =>
+          rw [hAk] at hok
+          cases hak : A.vk with
+          | none => simp [hak] at hok
+          | some z =>
+            simp only [hak, Option.map_some] at hok
+            exact ⟨t.ann, z.2, rfl, rfl, hR.evk _ _ hok⟩
+    | none =>
+      -- lands in the expected **kwargs
+      have hslE : slotU 0 E.posL k = none :=
+        slot_none_of_kwAt E hE k (by intro t h; rw [hEk] at h; cases h)
+      have hEkw := hkw k hk
+      simp only [kwOkU, hslE, Bool.or_eq_true] at hEkw
+      have hvkS : E.vk.isSome = true := by
+        rcases hEkw with h | h
+        · exfalso
+          obtain ⟨q, hq, hqn⟩ := List.any_eq_true.mp h
+          have hqn : q.name = k := by simpa using hqn
+          have hm : TP.toT .kwOnly q ∈ E.tparams := mem_koL_tparams E _ (List.mem_map.mpr ⟨q, hq, rfl⟩)
+          have := kwAt_of_mem E.tparams hE _ hm (Or.inr rfl)
+          simp only [TP.toT] at this
+          rw [hqn, hEk] at this; cases this
+        · exact h
+      cases hv : E.vk with
+      | none => rw [hv] at hvkS; cases hvkS
+      | some x =>
+        rw [hv] at hvk
+        obtain ⟨U, hU, hvv, hext⟩ := vkOk_some R _ _ _ x hvk
+        have hacc : acceptsKw E k = true := by simp [acceptsKw, hv]
+        cases hAk : kwAt A.tparams k with
+        | some b =>
+          obtain ⟨hbm, hbn, hbk⟩ := kwAt_some A.tparams k b hAk
+          refine ⟨x.2, b.ann, rfl, rfl, hR.xvk _ _ ?_⟩
+          apply hext b hbm ?_ (by rcases hbk with h | h; exact Or.inr h; exact Or.inl h) ?_
+          · -- not in consumed_keyword
+            intro hck
+            unfold st3 at hck
+            rcases kofold_ck_sub A.tparams b.name E.koL _ hck with h | ⟨e, he, t', ht', hn'⟩
+            · simp only [st1] at h
+              rcases posFinal_ck_pk R _ _ b.name E.posL A.posL {} hmp h with h' | ⟨e, he, hek, hen⟩
+              · simp at h'
+              · have := kwAt_of_mem E.tparams hE e (mem_posL_tparams E e he) (Or.inl hek)
+                rw [hen, hbn, hEk] at this; cases this
+            · obtain ⟨_, htn', _⟩ := kwAt_some A.tparams e.name t' ht'
+              have hek : e.kind = .kwOnly := by
+                simp only [TDefSig.koL, List.mem_map] at he
+                obtain ⟨q, _, rfl⟩ := he; rfl
+              have := kwAt_of_mem E.tparams hE e (mem_koL_tparams E e he) (Or.inr hek)
+              rw [← htn', hn', hbn, hEk] at this; cases this
+          · -- not in consumed_required_pos_only
+            intro hcr
+            unfold st3 at hcr
+            rw [(kofold_cp A.tparams E.koL _).2] at hcr
+            simp only [st1] at hcr
+            rw [hbn] at hcr
+            rcases posFinal_crpo_po (acceptsKw E) k hacc E.posL A.posL {} (posL_positional E)
+              (posL_positional A) hD1 hcr with h | ⟨a, ha, han, hak⟩
+            · simp at h
+            · have hapos : a ∈ A.posL := List.mem_of_mem_take ha
+              have : a = b := nodup_name_eq A.tparams hA a b (mem_posL_tparams A a hapos) hbm (by rw [han, hbn])
+              subst this
+              rcases hbk with h | h <;> rw [hak] at h <;> cases h
+        | none =>
+          cases hak : A.vk with
+          | none => simp [hak] at hU
+          | some z =>
+            simp only [hak, Option.map_some, Option.some.injEq] at hU
+            exact ⟨x.2, z.2, rfl, rfl, hR.vkvk _ _ (by rw [hU]; exact hvv)⟩
+
+theorem nf_ret (R : TyRel τ) (E A : TDefSig τ) (hnf : nf R E A = true) : R.asg E.ret A.ret = true := by
+  unfold nf at hnf
+  simp only [Bool.and_eq_true] at hnf
+  exact hnf.1.1.1.1.1
+
+/-! ## Part E — the behavioural exception classes are exact -/
+
+theorem clash_elim (acc : String → Bool) : ∀ (es as : List (TParam τ)), clash acc es as = true →
+    ∃ (j : Nat) (e a : TParam τ), es[j]? = some e ∧ as[j]? = some a ∧ e.kind = .posOnly ∧ a.kind = .posOrKw ∧ acc a.name = true := by
+  intro es
+  induction es with
+  | nil => intro as h; simp [clash] at h
+  | cons e es ih =>
+    intro as h
+    cases as with
+    | nil => simp [clash] at h
+    | cons a as =>
+      simp only [clash, Bool.or_eq_true, Bool.and_eq_true, beq_iff_eq] at h
+      rcases h with ⟨⟨h1, h2⟩, h3⟩ | h
+      · exact ⟨0, e, a, rfl, rfl, h1, h2, h3⟩
+      · obtain ⟨j, e', a', h1, h2, h3⟩ := ih as h
+        exact ⟨j + 1, e', a', by simp [h1], by simp [h2], h3⟩
+
+theorem posL_po_lt (s : TDefSig τ) (j : Nat) (e : TParam τ) (h : s.posL[j]? = some e)
+    (hk : e.kind = .posOnly) : j < s.po.length := by
+  by_cases hj : j < s.po.length
+  · exact hj
+  · exfalso
+    simp only [TDefSig.posL] at h
+    rw [List.getElem?_append_right (by simpa using Nat.le_of_not_lt hj)] at h
+    have := List.mem_of_getElem? h
+    simp only [List.mem_map] at this
+    obtain ⟨q, _, rfl⟩ := this
+    simp [TP.toT] at hk
+
+/-- The first positional-or-keyword `m` of a list lies at or before any positional-or-keyword `m`. -/
+theorem slotU_le (m : String) : ∀ (l : List (TParam τ)) (off j : Nat) (a : TParam τ),
+    l[j]? = some a → a.kind = .posOrKw → a.name = m → ∃ j', slotU off l m = some j' ∧ j' ≤ off + j := by
+  intro l
+  induction l with
+  | nil => intro off j a h; simp at h
+  | cons p ps ih =>
+    intro off j a h hk hn
+    simp only [slotU]
+    split
+    · exact ⟨off, rfl, by omega⟩
+    · rename_i hp
+      cases j with
+      | zero =>
+        simp at h; subst h
+        simp [hk, hn] at hp
+      | succ j =>
+        simp only [List.getElem?_cons_succ] at h
+        obtain ⟨j', h1, h2⟩ := ih (off + 1) j a h hk hn
+        exact ⟨j', h1, by omega⟩
+
+theorem filledU_lt (n : Nat) (ks : List String) : ∀ (l : List (TParam τ)) (off : Nat),
+    off + l.length ≤ n → filledU n ks off l = true := by
+  intro l
+  induction l with
+  | nil => intro off _; rfl
+  | cons p ps ih =>
+    intro off h
+    simp only [List.length_cons] at h
+    simp only [filledU, Bool.and_eq_true, Bool.or_eq_true, decide_eq_true_eq]
+    exact ⟨Or.inl (Or.inl (by omega)), ih _ (by omega)⟩
+
+theorem slotU_none_of_not_mem (k : String) : ∀ (l : List (TParam τ)) (off : Nat),
+    (∀ a ∈ l, a.kind = .posOrKw → a.name ≠ k) → slotU off l k = none := by
+  intro l
+  induction l with
+  | nil => intro off _; rfl
+  | cons p ps ih =>
+    intro off h
+    simp only [slotU]
+    split
+    · rename_i hp
+      simp only [Bool.and_eq_true, beq_iff_eq] at hp
+      exact absurd hp.2 (h p (by simp) hp.1)
+    · exact ih _ (fun a ha => h a (by simp [ha]))
+
+/-- Keyword names of a header: positional-or-keyword, then keyword-only. -/
+def kwNames (s : TDefSig τ) : List String := s.pk.map (·.name) ++ s.ko.map (·.name)
+
+theorem kwNames_nodup (s : TDefSig τ) (hs : s.WF) : (kwNames s).Nodup := by
+  unfold TDefSig.WF TDefSig.tparams TDefSig.posL TDefSig.koL at hs
+  simp only [List.map_append, List.map_map] at hs
+  have h1 := (List.nodup_append.mp hs).1
+  have h2 := List.nodup_append.mp h1
+  have h3 := List.nodup_append.mp h2.1
+  have h4 := List.nodup_append.mp h3.1
+  unfold kwNames
+  rw [List.nodup_append]
+  refine ⟨by simpa [Function.comp_def, TP.toT] using h4.2.1, by simpa [Function.comp_def, TP.toT] using h2.2.1, ?_⟩
+  intro a ha b hb
+  apply h2.2.2 a ?_ b (by simpa [Function.comp_def, TP.toT] using hb)
+  apply List.mem_append_left
+  apply List.mem_append_right
+  simpa [Function.comp_def, TP.toT] using ha
+
+/-- `posKwClash` alone (whatever pyanalyze answers) makes the pair behaviourally unsound: the call
+with all positional-only parameters passed positionally, everything else by keyword, plus the
+clashing keyword, binds to the expected header and not to the actual one. -/
+theorem posKwClash_cex (E A : TDefSig τ) (hE : E.WF) (hD : D07_posKwClash E A = true) :
+    ∃ c, cpyBind E.shape c = true ∧ cpyBind A.shape c = false := by
+  obtain ⟨j, e, a, he, ha, hek, hak, hacc⟩ := clash_elim (acceptsKw E) E.posL A.posL hD
+  have hj := posL_po_lt E j e he hek
+  let m := a.name
+  let ks := if (kwNames E).contains m then kwNames E else kwNames E ++ [m]
+  have hm : m ∈ ks := by
+    simp only [ks]; split
+    · rename_i h; simpa using h
+    · simp
+  have hks : ∀ k ∈ ks, k ∈ kwNames E ∨ (k = m ∧ m ∉ kwNames E) := by
+    intro k hk
+    simp only [ks] at hk
+    split at hk
+    · exact Or.inl hk
+    · rename_i h
+      rcases List.mem_append.mp hk with h' | h'
+      · exact Or.inl h'
+      · right; simp at h'; exact ⟨h', by simpa using h⟩
+  have hsub : ∀ k ∈ kwNames E, k ∈ ks := by
+    intro k hk
+    simp only [ks]; split
+    · exact hk
+    · exact List.mem_append_left _ hk
+  refine ⟨⟨E.po.length, ks⟩, ?_, ?_⟩
+  rotate_left
+  · -- the actual header rejects the call
+    rw [Bool.eq_false_iff]
+    intro hb
+    rw [cpy_iff] at hb
+    have := hb.2.2.1 m hm
+    obtain ⟨j', h1, h2⟩ := slotU_le m A.posL 0 j a ha hak rfl
+    simp only [kwOkU, h1, Bool.not_eq_true', decide_eq_false_iff_not] at this
+    omega
+  · -- the expected header binds it
+    rw [cpy_iff]
+    refine ⟨?_, Or.inl (by simp [TDefSig.posL]), ?_, ?_, ?_⟩
+    · simp only [ks]; split
+      · exact kwNames_nodup E hE
+      · rename_i h
+        rw [List.nodup_append]
+        refine ⟨kwNames_nodup E hE, by simp, ?_⟩
+        intro x hx y hy
+        simp at hy; subst hy
+        intro hxy; subst hxy
+        exact h (by simpa using hx)
+    · intro k hk
+      unfold kwOkU
+      cases hsl : slotU 0 E.posL k with
+      | some i =>
+        have : E.po.length ≤ i := by
+          simp only [TDefSig.posL, slotU_po] at hsl
+          have := slotU_ge k _ _ _ hsl
+          omega
+        simp; omega
+      | none =>
+        simp only [Bool.or_eq_true]
+        rcases hks k hk with h | ⟨h1, h2⟩
+        · simp only [kwNames, List.mem_append, List.mem_map] at h
+          rcases h with ⟨p, hp, hpn⟩ | ⟨p, hp, hpn⟩
+          · exfalso
+            have := slotU_isSome_of_mem k E.posL 0 ⟨TP.toT .posOrKw p, by
+              simp only [TDefSig.posL, List.mem_append, List.mem_map]; exact Or.inr ⟨p, hp, rfl⟩, rfl, hpn⟩
+            rw [hsl] at this; cases this
+          · exact Or.inl (List.any_eq_true.mpr ⟨p, hp, by simpa using hpn⟩)
+        · subst h1
+          simp only [acceptsKw, Bool.or_eq_true] at hacc
+          rcases hacc with (h | h) | h
+          · exact Or.inr h
+          · exfalso; apply h2
+            obtain ⟨p, hp, hpn⟩ := List.any_eq_true.mp h
+            simp only [kwNames, List.mem_append, List.mem_map]
+            exact Or.inl ⟨p, hp, by simpa using hpn⟩
+          · exact Or.inl h
+    · simp only [TDefSig.posL, filledU_append, Bool.and_eq_true]
+      constructor
+      · exact filledU_lt _ _ _ _ (by simp)
+      · apply filledU_of_all
+        intro p hp
+        simp only [List.mem_map] at hp
+        obtain ⟨q, hq, rfl⟩ := hp
+        left
+        simp only [TP.toT, beq_self_eq_true, Bool.true_and, List.contains_eq_mem, decide_eq_true_eq]
+        apply hsub
+        simp only [kwNames, List.mem_append, List.mem_map]
+        exact Or.inl ⟨q, hq, rfl⟩
+    · intro p hp
+      left
+      apply hsub
+      simp only [kwNames, List.mem_append, List.mem_map]
+      exact Or.inr ⟨p, hp, rfl⟩
+
+theorem koNames_facts (s : TDefSig τ) (hs : s.WF) :
+    (s.ko.map (·.name)).Nodup ∧ ∀ k ∈ s.ko.map (·.name), k ∉ s.pk.map (·.name) := by
+  have h := kwNames_nodup s hs
+  unfold kwNames at h
+  rw [List.nodup_append] at h
+  exact ⟨h.2.1, fun k hk hk' => h.2.2 k hk' k hk rfl⟩
+
+/-- `starKwClash` alone makes the pair behaviourally unsound: enough positionals to reach the
+clashing parameter of the actual header, all keyword-only parameters and the clashing keyword. -/
+theorem starKwClash_cex (E A : TDefSig τ) (hE : E.WF) (hD : D07_starKwClash E A = true) :
+    ∃ c, cpyBind E.shape c = true ∧ cpyBind A.shape c = false := by
+  simp only [D07_starKwClash, Bool.and_eq_true, List.any_eq_true, beq_iff_eq] at hD
+  obtain ⟨hvp, a, hadrop, hak, hacc⟩ := hD
+  obtain ⟨i, hi⟩ := List.mem_iff_getElem?.mp hadrop
+  rw [List.getElem?_drop] at hi
+  let j := E.posL.length + i
+  let m := a.name
+  let kn := E.ko.map (·.name)
+  let ks := if kn.contains m then kn else kn ++ [m]
+  obtain ⟨hknd, hkpk⟩ := koNames_facts E hE
+  simp only [acceptsKwStar, Bool.and_eq_true, Bool.not_eq_true', Bool.or_eq_true] at hacc
+  have hm : m ∈ ks := by
+    simp only [ks]; split
+    · rename_i h; simpa using h
+    · simp
+  have hks : ∀ k ∈ ks, k ∈ kn ∨ k = m := by
+    intro k hk
+    simp only [ks] at hk
+    split at hk
+    · exact Or.inl hk
+    · rcases List.mem_append.mp hk with h' | h'
+      · exact Or.inl h'
+      · right; simpa using h'
+  have hsub : ∀ k ∈ kn, k ∈ ks := by
+    intro k hk
+    simp only [ks]; split
+    · exact hk
+    · exact List.mem_append_left _ hk
+  refine ⟨⟨j + 1, ks⟩, ?_, ?_⟩
+  rotate_left
+  · rw [Bool.eq_false_iff]
+    intro hb
+    rw [cpy_iff] at hb
+    have := hb.2.2.1 m hm
+    obtain ⟨j', h1, h2⟩ := slotU_le m A.posL 0 j a hi hak rfl
+    simp only [kwOkU, h1, Bool.not_eq_true', decide_eq_false_iff_not] at this
+    omega
+  · rw [cpy_iff]
+    refine ⟨?_, Or.inr hvp, ?_, filledU_lt _ _ _ _ (by simp only [j]; omega), ?_⟩
+    · simp only [ks]; split
+      · exact hknd
+      · rename_i h
+        rw [List.nodup_append]
+        refine ⟨hknd, by simp, ?_⟩
+        intro x hx y hy
+        simp at hy; subst hy
+        intro hxy; subst hxy
+        exact h (by simpa using hx)
+    · intro k hk
+      have hnopk : ∀ p ∈ E.pk, p.name ≠ k := by
+        intro p hp hpn
+        rcases hks k hk with h | h
+        · exact hkpk k h (List.mem_map.mpr ⟨p, hp, hpn⟩)
+        · have := List.any_eq_false.mp hacc.1 p hp
+          rw [h] at hpn
+          simp [hpn] at this
+          exact this rfl
+      have hsl : slotU 0 E.posL k = none := by
+        apply slotU_none_of_not_mem
+        intro x hx hxk
+        simp only [TDefSig.posL, List.mem_append, List.mem_map] at hx
+        rcases hx with ⟨q, _, rfl⟩ | ⟨q, hq, rfl⟩
+        · simp [TP.toT] at hxk
+        · exact hnopk q hq
+      simp only [kwOkU, hsl, Bool.or_eq_true]
+      rcases hks k hk with h | h
+      · obtain ⟨p, hp, hpn⟩ := List.mem_map.mp h
+        exact Or.inl (List.any_eq_true.mpr ⟨p, hp, by simpa using hpn⟩)
+      · subst h
+        rcases hacc.2 with h | h
+        · exact Or.inr h
+        · exact Or.inl h
+    · intro p hp
+      left
+      exact hsub _ (List.mem_map.mpr ⟨p, hp, rfl⟩)
+
+
+theorem posKwClash_unsound (E A : TDefSig τ) (hE : E.WF) (hD : D07_posKwClash E A = true) :
+    ¬ BehSound E A := by
+  intro hs
+  obtain ⟨c, h1, h2⟩ := posKwClash_cex E A hE hD
+  rw [hs c h1] at h2; cases h2
+
+theorem starKwClash_unsound (E A : TDefSig τ) (hE : E.WF) (hD : D07_starKwClash E A = true) :
+    ¬ BehSound E A := by
+  intro hs
+  obtain ⟨c, h1, h2⟩ := starKwClash_cex E A hE hD
+  rw [hs c h1] at h2; cases h2
 
 end Pya.C07
